@@ -60,6 +60,24 @@ func hashBytes(b []byte) uint64 {
 	return h.Sum64()
 }
 
+// Begin notes the case about to be evaluated in $VERIF_REPLAY_DIR/inflight-<property>-<test>-s<shard>.json. A
+// panic on a goroutine started by the code under test cannot be recovered and kills the process: the driver then
+// finds the case that was running there and reports it (a replay file like any other). Only used by the
+// end-to-end checks, whose cases take milliseconds.
+func (r *Recorder) Begin(c any) {
+	dir := os.Getenv("VERIF_REPLAY_DIR")
+	if dir == "" {
+		return
+	}
+	shard := os.Getenv("VERIF_SHARD")
+	if shard == "" {
+		shard = "0"
+	}
+	js, _ := json.Marshal(c)
+	out, _ := json.Marshal(replayFile{Property: r.Property, Test: r.Test, Signature: "crash/process-died", Message: "the test process died (panic on a goroutine of the code under test) while this case was being evaluated", Case: js})
+	_ = os.WriteFile(filepath.Join(dir, fmt.Sprintf("inflight-%s-%s-s%s.json", r.Property, r.Test, shard)), out, 0o644)
+}
+
 // Case records one evaluated case. c is serialised for hashing/sampling.
 func (r *Recorder) Case(c any, nontrivial bool, classes ...string) {
 	var js []byte
@@ -147,6 +165,10 @@ func Flush() {
 	defer regMu.Unlock()
 	for _, r := range reg {
 		r.mu.Lock()
+		if r.evaluations == 0 && r.Rule == "" {
+			r.mu.Unlock()
+			continue // a recorder only used to name in-flight cases
+		}
 		hs := make([]uint64, 0, len(r.nontrivial))
 		for h := range r.nontrivial {
 			hs = append(hs, h)
